@@ -9,26 +9,49 @@ import (
 	"verifharness/world"
 )
 
-// LoopCase: the node's own production loop meets a failing execution layer.
+// LoopCase: the node's own production loop meets a failing execution layer, a failing sequencing layer or a block whose
+// execution outlasts the block interval.
 type LoopCase struct {
-	ID      int    `json:"id"`
-	Lazy    bool   `json:"lazy"`
-	ErrKind string `json:"execution_error"` // plain | wraps-context-canceled
+	ID    int    `json:"id"`
+	Lazy  bool   `json:"lazy"`
+	Layer string `json:"layer"` // execution | sequencing | execution-slow
+	// ErrKind: execution: plain | wraps-context-canceled; sequencing: one of seqErrKinds; execution-slow: unused
+	ErrKind string `json:"error_kind,omitempty"`
 	AtBlock int    `json:"at_block"`
-	Times   int    `json:"consecutive_failures"`
+	Times   int    `json:"consecutive"`
 }
 
 func (c LoopCase) key() string {
-	return fmt.Sprintf("loop lazy=%v %s at%d x%d", c.Lazy, c.ErrKind, c.AtBlock, c.Times)
+	return fmt.Sprintf("loop lazy=%v %s %s at%d x%d", c.Lazy, c.Layer, c.ErrKind, c.AtBlock, c.Times)
 }
 
+const (
+	loopBlockTime = 2 * time.Millisecond
+	// loopSlowExec is how long the execution of a slow block takes: 20 block intervals
+	loopSlowExec = 40 * time.Millisecond
+)
+
 // runLoopCase runs the real AggregationLoop (block time 2 ms; lazy mode with notifications arriving all the time) on an
-// aggregator whose execution layer fails a few times while the node's context is alive - with a plain error, or with
-// an error that wraps context.Canceled (what a remote execution client returns when ITS call was cancelled on the other
-// side). What the node does about an execution failure is its own choice - report the error and stop the loop (the node
-// shuts down and is restarted), or carry on - but it must not do neither: a loop that has returned without reporting
-// anything, or that is still there and never produces again although the execution layer has long recovered, leaves
-// the node "permanently unable to produce blocks once the responses are well-formed again".
+// aggregator while the node's context is alive, against one of three things.
+//
+// execution: the execution layer fails a few times - with a plain error, or with an error that wraps context.Canceled
+// (what a remote execution client returns when ITS call was cancelled on the other side). What the node does about an
+// execution failure is its own choice - report the error and stop the loop (the node shuts down and is restarted), or
+// carry on - but it must not do neither: a loop that has returned without reporting anything, or that is still there and
+// never produces again although the execution layer has long recovered, leaves the node "permanently unable to produce
+// blocks once the responses are well-formed again".
+//
+// sequencing: the sequencing layer answers a few requests with a transient error - an opaque one, or one that carries
+// the identity of context.DeadlineExceeded / context.Canceled / an i/o timeout (a sequencer client with a per-request
+// timeout, a sequencer that bounds its own DA or database call and wraps the result). "Transient errors" of the
+// sequencing layer are named by the property's quantifier: they are over with the next request, so the running node has
+// to produce again once the answers are well-formed again. A loop that ended on such an error - reported or not - has
+// made it fatal: a node whose production loop has ended never produces again (node/full.go shuts the whole node down
+// on the first reported error).
+//
+// execution-slow: nothing fails at all; executing one to three consecutive blocks merely takes 20 block intervals each
+// (every time they are executed), on an execution layer that honours its context like a remote client does. Every
+// response is well-formed, so the chain has to get past those blocks.
 func runLoopCase(r *vk.Run, c LoopCase) {
 	bg := context.Background()
 	ctx, cancel := context.WithCancel(bg)
@@ -41,12 +64,21 @@ func runLoopCase(r *vk.Run, c LoopCase) {
 		return &world.SeqResp{Kind: world.SeqTxs, Time: t, Txs: [][]byte{[]byte(fmt.Sprintf("c01loop-%d-%d", c.ID, n))}}
 	}
 	exec := world.NewExecDouble()
-	n, err := world.NewNode(ctx, world.NodeOpts{Aggregator: true, Lazy: c.Lazy, BlockTime: 2 * time.Millisecond, LazyInterval: time.Hour, GenesisTime: genesis},
+	if c.Layer == "execution-slow" {
+		exec.SlowExec = func(h uint64) time.Duration {
+			if h > uint64(c.AtBlock) && h <= uint64(c.AtBlock+c.Times) {
+				return loopSlowExec
+			}
+			return 0
+		}
+	}
+	n, err := world.NewNode(ctx, world.NodeOpts{Aggregator: true, Lazy: c.Lazy, BlockTime: loopBlockTime, LazyInterval: time.Hour, GenesisTime: genesis},
 		world.NewKeys("proposer"), world.NewMemDS(world.NewImage()), exec, seq, world.NewDADouble(), nil)
 	if err != nil {
 		r.Violation("startup", err.Error(), c)
 		return
 	}
+	started := time.Now()
 	loops := world.StartLoops(ctx, n, "aggregation")
 	defer func() { _ = loops.Stop() }()
 	height := func() uint64 { h, _ := n.Store.Height(bg); return h }
@@ -79,41 +111,111 @@ func runLoopCase(r *vk.Run, c LoopCase) {
 		r.Inconclusive(fmt.Sprintf("loop case %d: the chain did not reach block %d", c.ID, c.AtBlock))
 		return
 	}
-	out := world.ExecErr
-	if c.ErrKind == "wraps-context-canceled" {
-		out = world.ExecCtxCancelled
-	}
-	for i := 0; i < c.Times; i++ {
-		exec.Script(out)
-	}
-	// the failures are consumed (the loop met them) ...
-	if !waitFor(15*time.Second, func() bool { return exec.ScriptLen() == 0 || loops.Exited("aggregation") }) {
-		r.Inconclusive(fmt.Sprintf("loop case %d: the scripted execution failures were not consumed", c.ID))
-		return
-	}
-	hFail := height()
-	r.Hit("loop-meets-execution-failure")
-	// ... and afterwards: reported, or producing again
+	// the reference of this run: how long this loop took, on this machine and under this load, to produce its first
+	// blocks; the waits below are 10 s plus a large multiple of it
+	ref := time.Since(started)
+	patience := 10*time.Second + 200*ref
 	reported := false
 	var reportedErr error
-	alive := waitFor(10*time.Second, func() bool {
-		select {
-		case e := <-loops.ErrCh:
-			reported, reportedErr = true, e
-		default:
+	pollReport := func() bool {
+		if !reported {
+			select {
+			case e := <-loops.ErrCh:
+				reported, reportedErr = true, e
+			default:
+			}
 		}
-		return reported || (exec.ScriptLen() == 0 && height() >= hFail+3)
-	})
-	switch {
-	case reported:
-		r.Count("loop_reports_execution_failure_and_stops", 1)
-		_ = reportedErr
-	case alive:
-		r.Count("loop_carries_on_after_execution_failure", 1)
-	case loops.Exited("aggregation"):
-		r.Violation("no-stall", fmt.Sprintf("the execution layer failed %d time(s) (%s) while the node's context was alive; the production loop (lazy=%v) returned without reporting an error: the node keeps running and will never produce a block again", c.Times, c.ErrKind, c.Lazy), c)
+		return reported
+	}
+	switch c.Layer {
+	case "sequencing":
+		for i := 0; i < c.Times; i++ {
+			seq.Push(world.SeqResp{Kind: world.SeqError, Err: seqErrOf(c.ErrKind)})
+		}
+		if !waitFor(15*time.Second, func() bool { return seq.Pending() == 0 || loops.Exited("aggregation") }) {
+			r.Inconclusive(fmt.Sprintf("loop case %d: the scripted sequencing errors were not consumed", c.ID))
+			return
+		}
+		hFail := height()
+		r.Hit("loop-meets-sequencing-error")
+		r.Count("loop_sequencing_error:"+c.ErrKind, 1)
+		goesOn := waitFor(patience, func() bool {
+			return pollReport() || loops.Exited("aggregation") || (seq.Pending() == 0 && height() >= hFail+3)
+		})
+		what := fmt.Sprintf("the sequencing layer answered %d request(s) with a transient error (%s) while the node's context was alive and answers normally since", c.Times, c.ErrKind)
+		switch {
+		case pollReport():
+			r.Violation("no-stall", fmt.Sprintf("%s; the production loop (lazy=%v) took the error for fatal, reported %q and ended at height %d: the node produces no block any more", what, c.Lazy, reportedErr, height()), c)
+		case loops.Exited("aggregation"):
+			r.Violation("no-stall", fmt.Sprintf("%s; the production loop (lazy=%v) returned without reporting an error at height %d: the node keeps running and will never produce a block again", what, c.Lazy, height()), c)
+		case goesOn:
+			r.Count("loop_carries_on_after_sequencing_error", 1)
+		default:
+			// the loop is still there; it is stuck only if it keeps being served well-formed batches without committing
+			served := 0
+			for _, call := range seq.Calls() {
+				if call.Resp != nil && call.Resp.Kind == world.SeqTxs {
+					served++
+				}
+			}
+			if served >= int(hFail)+8 {
+				r.Violation("no-stall", fmt.Sprintf("%s; %s later the production loop (lazy=%v) has been handed %d well-formed batches and the chain is still at height %d (%d when the errors were over)", what, patience, c.Lazy, served, height(), hFail), c)
+			} else {
+				r.Inconclusive(fmt.Sprintf("loop case %d: no progress within %s after the sequencing errors, and too few requests to tell", c.ID, patience))
+			}
+		}
+	case "execution-slow":
+		last := uint64(c.AtBlock + c.Times)
+		goesOn := waitFor(patience+time.Duration(c.Times)*loopSlowExec, func() bool {
+			return pollReport() || loops.Exited("aggregation") || height() >= last+2
+		})
+		aborted, completed := exec.SlowExecCounts()
+		if aborted+completed > 0 {
+			r.Hit("loop-meets-slow-execution")
+		}
+		what := fmt.Sprintf("executing block(s) %d..%d takes %s each (block interval %s) on an execution layer that honours its context; no call of either layer failed on its own", c.AtBlock+1, last, loopSlowExec, loopBlockTime)
+		counts := fmt.Sprintf("%d execution(s) of a slow block were cut short by the node's context, %d ran to their end", aborted, completed)
+		switch {
+		case pollReport():
+			r.Violation("no-stall", fmt.Sprintf("%s; the production loop (lazy=%v) reported %q and ended at height %d (%s): the block is saved as pending and costs the same on every later attempt", what, c.Lazy, reportedErr, height(), counts), c)
+		case loops.Exited("aggregation"):
+			r.Violation("no-stall", fmt.Sprintf("%s; the production loop (lazy=%v) returned without reporting an error at height %d (%s)", what, c.Lazy, height(), counts), c)
+		case goesOn:
+			r.Count("loop_carries_on_after_slow_execution", 1)
+		case aborted >= 3 && completed == 0:
+			r.Violation("no-stall", fmt.Sprintf("%s; the chain is still at height %d: %s", what, height(), counts), c)
+		default:
+			r.Inconclusive(fmt.Sprintf("loop case %d: the chain did not get past the slow blocks within the watchdog (%s)", c.ID, counts))
+		}
 	default:
-		r.Violation("no-stall", fmt.Sprintf("the execution layer failed %d time(s) (%s) while the node's context was alive and has long recovered; 10 s later (5000 block intervals%s) the production loop (lazy=%v) has neither reported an error nor produced another block (height %d)", c.Times, c.ErrKind, map[bool]string{true: ", notifications arriving every millisecond", false: ""}[c.Lazy], c.Lazy, height()), c)
+		out := world.ExecErr
+		if c.ErrKind == "wraps-context-canceled" {
+			out = world.ExecCtxCancelled
+		}
+		for i := 0; i < c.Times; i++ {
+			exec.Script(out)
+		}
+		// the failures are consumed (the loop met them) ...
+		if !waitFor(15*time.Second, func() bool { return exec.ScriptLen() == 0 || loops.Exited("aggregation") }) {
+			r.Inconclusive(fmt.Sprintf("loop case %d: the scripted execution failures were not consumed", c.ID))
+			return
+		}
+		hFail := height()
+		r.Hit("loop-meets-execution-failure")
+		// ... and afterwards: reported, or producing again
+		alive := waitFor(patience, func() bool {
+			return pollReport() || (exec.ScriptLen() == 0 && height() >= hFail+3)
+		})
+		switch {
+		case reported:
+			r.Count("loop_reports_execution_failure_and_stops", 1)
+		case alive:
+			r.Count("loop_carries_on_after_execution_failure", 1)
+		case loops.Exited("aggregation"):
+			r.Violation("no-stall", fmt.Sprintf("the execution layer failed %d time(s) (%s) while the node's context was alive; the production loop (lazy=%v) returned without reporting an error: the node keeps running and will never produce a block again", c.Times, c.ErrKind, c.Lazy), c)
+		default:
+			r.Violation("no-stall", fmt.Sprintf("the execution layer failed %d time(s) (%s) while the node's context was alive and has long recovered; %s later (the first %d blocks of this run took %s%s) the production loop (lazy=%v) has neither reported an error nor produced another block (height %d)", c.Times, c.ErrKind, patience, c.AtBlock, ref, map[bool]string{true: ", notifications arriving every millisecond", false: ""}[c.Lazy], c.Lazy, height()), c)
+		}
 	}
 	r.Eval(c.key(), true, c)
 }
